@@ -7,11 +7,15 @@
                        time.After per iteration.
     pong_prefix:       the reader treats every payload of 12 bytes OR MORE that
                        starts with the tcp.pong magic as a pong (round 4).
+    single_read:       the handshake confirmation is read with ONE conn.Read into a
+                       68-byte buffer instead of io.ReadFull / ParsePacket (round 5).
+    orphan_timer:      a reader whose packet channel was closed does not return but
+                       keeps its silence timer and reconnects 10 s later (round 5).
     chan_per_session:  c.resp is made by setupEncryptedConnection (every
                        handshake) instead of once by NewConnection, while the
                        application keeps the channel it got from Responses(). *)
-From Coq Require Import List NArith Bool.
-From Tongo Require Import Spec.AdnlSpec Model.AdnlT.
+From Coq Require Import List NArith Bool Arith.
+From Tongo Require Import Lib.Bits Spec.AdnlSpec Model.AdnlT.
 Import ListNotations.
 Local Open Scope N_scope.
 
@@ -51,3 +55,62 @@ Theorem pong_prefix_refuted :
   reader_run false 0 [APacket 100 pong_like] = ([pong_like], SRunning) /\
   is_control_ge pong_like = true.
 Proof. vm_compute. repeat split. Qed.
+
+(* ---------- handshake confirmation read with one Read ---------- *)
+
+Definition hH (x : list N) : list N := repeat ((len x + fold_left N.add x 7) mod 256) 32.
+Definition hnext (s : N) : N * N := (s mod 256, s + 1).
+
+(* one Read: the first segment only, the rest of the 68-byte buffer stays zero *)
+Definition confirm_single_read (r : reader) (s : N) : pres N :=
+  match r with
+  | seg :: _ => parse_packet hH N hnext [firstn 68 (seg ++ repeat 0 68)] s
+  | [] => PErr N PEof []
+  end.
+
+Definition confirmation : list N := fst (xor_stream N hnext 9 (frame hH (repeat 3 32) [])).
+
+Theorem single_read_refuted :
+  length confirmation = 68%nat /\
+  (* ParsePacket on the connection: every split is fine *)
+  (forall k, (k <= 68)%nat ->
+     match parse_packet hH N hnext [firstn k confirmation; skipn k confirmation] 9 with
+     | POk _ _ p _ _ => p = [] | PErr _ _ _ => False end) /\
+  (* one Read: a split after the length field fails, the unsplit delivery works *)
+  (match confirm_single_read [firstn 4 confirmation; skipn 4 confirmation] 9 with
+   | PErr _ _ _ => True | POk _ _ _ _ _ => False end) /\
+  (match confirm_single_read [confirmation] 9 with
+   | POk _ _ p _ _ => p = [] | PErr _ _ _ => False end).
+Proof.
+  split; [vm_compute; reflexivity|]. split; [|split; vm_compute; auto].
+  intros k Hk.
+  assert (In k (seq 0 69)) as I by (apply in_seq; split; [apply Nat.le_0_l|apply le_n_S; exact Hk]).
+  revert k I Hk.
+  assert (G : forallb (fun k => match parse_packet hH N hnext [firstn k confirmation; skipn k confirmation] 9 with
+                                | POk _ _ p _ _ => match p with [] => true | _ => false end
+                                | PErr _ _ _ => false end) (seq 0 69) = true) by (vm_compute; reflexivity).
+  intros k I _. rewrite forallb_forall in G. specialize (G k I).
+  destruct (parse_packet hH N hnext [firstn k confirmation; skipn k confirmation] 9) as [n p r s|e r];
+    [destruct p; [reflexivity|discriminate]|discriminate].
+Qed.
+
+(* ---------- a closed reader that keeps its timer ---------- *)
+
+(* a Connection's life as (duration in ms, how the session ended); number of
+   handshakes performed.  Real design: one handshake per session.  Orphan
+   design: the reader of a session that ended with a closed channel reconnects
+   10 s after the close, tearing down a successor that is still alive then. *)
+Definition handshakes (orphan_timer : bool) (sessions : list (N * session_end)) : nat :=
+  let fix go (prev_closed : bool) (l : list (N * session_end)) : nat :=
+    match l with
+    | [] => 0%nat
+    | (dur, e) :: t =>
+        (1 + (if orphan_timer && prev_closed && (reconnect_timeout_ms <=? dur)%N then 1 else 0)
+         + go (match e with SClosed => true | _ => false end) t)%nat
+    end in
+  go false sessions.
+
+Theorem orphan_timer_refuted :
+  let life := [(500, SClosed); (12000, SRunning)] in
+  handshakes false life = 2%nat /\ handshakes true life = 3%nat.
+Proof. vm_compute. split; reflexivity. Qed.
